@@ -37,6 +37,7 @@ import (
 	"sigs.k8s.io/cli-utils/pkg/inventory"
 	"sigs.k8s.io/cli-utils/pkg/object"
 	"sigs.k8s.io/cli-utils/pkg/object/dependson"
+	"sigs.k8s.io/cli-utils/pkg/object/mutation"
 	"sigs.k8s.io/yaml"
 	"verifharness/emit"
 )
@@ -306,7 +307,46 @@ func keepAnnotations(e UEntry, id int, keep bool) map[string]string {
 	return keepVariants[v].off
 }
 
-func depsAnnotation(univ Universe, deps []int, bad bool) (string, bool) {
+// srcPath / tgtPath: every object carries the two annotations `src` and `tgt`
+// (constant value), so that a dependency reference can also be spelled as an
+// apply-time-mutation substitution `source.src -> target.tgt` that changes
+// nothing: the graph gets the same edge, and in correct code the dependent is
+// applied only after the source was observed Current with its body, so the
+// mutator finds it in the resource cache (no extra GET).
+const (
+	srcPath      = "$.metadata.annotations.src"
+	tgtPath      = "$.metadata.annotations.tgt"
+	malformedMut = "{bad"
+)
+
+// depsAnnotation returns key and value of the one annotation that spells the
+// dependency references of an object: depends-on, or — for a `Mut` identifier,
+// in every incarnation of it — apply-time-mutation. One key per identifier:
+// kubectl's three-way merge works per key and the model knows one annotation.
+func depsAnnotation(univ Universe, id int, deps []int, bad bool) (string, string, bool) {
+	if univ[id].Mut {
+		if bad {
+			return mutation.Annotation, malformedMut, true
+		}
+		if len(deps) == 0 {
+			return "", "", false
+		}
+		var subs mutation.ApplyTimeMutation
+		for _, d := range deps {
+			subs = append(subs, mutation.FieldSubstitution{
+				SourceRef: mutation.ResourceReferenceFromObjMetadata(univ[d].Meta), SourcePath: srcPath, TargetPath: tgtPath})
+		}
+		b, err := yaml.Marshal(subs)
+		if err != nil {
+			panic(err)
+		}
+		return mutation.Annotation, string(b), true
+	}
+	k, ok := dependsOnAnnotation(univ, deps, bad)
+	return dependson.Annotation, k, ok
+}
+
+func dependsOnAnnotation(univ Universe, deps []int, bad bool) (string, bool) {
 	if bad {
 		return malformedDep, true
 	}
@@ -331,9 +371,9 @@ func content(univ Universe, id int, deps []int, bad, keep bool, ver int, owner O
 	if e.Meta.Namespace != "" {
 		md["namespace"] = e.Meta.Namespace
 	}
-	ann := map[string]interface{}{}
-	if s, ok := depsAnnotation(univ, deps, bad); ok {
-		ann[dependson.Annotation] = s
+	ann := map[string]interface{}{"src": "v", "tgt": "v"}
+	if k, s, ok := depsAnnotation(univ, id, deps, bad); ok {
+		ann[k] = s
 	}
 	for k, v := range keepAnnotations(e, id, keep) {
 		ann[k] = v
@@ -474,6 +514,22 @@ func (st *Store) cobjAttrs(o *unstructured.Unstructured) CObj {
 			}
 		}
 	}
+	if mutation.HasAnnotation(o) {
+		subs, err := mutation.ReadAnnotation(o)
+		if err != nil {
+			c.BadDep = true
+		} else {
+			for _, sub := range subs {
+				d := sub.SourceRef.ToObjMetadata()
+				i := st.univ.Index(d)
+				if i < 0 {
+					st.note("live apply-time-mutation source outside the universe: %s", d.String())
+					i = 99
+				}
+				c.Deps = append(c.Deps, i)
+			}
+		}
+	}
 	if v, ok := o.GetLabels()[verLabel]; ok {
 		c.Ver, _ = strconv.Atoi(v)
 	}
@@ -568,7 +624,7 @@ type Server struct {
 	st     *Store
 	univ   Universe
 	clock  *Clock
-	faults map[string]bool
+	faults map[string]int // address -> 1 + index into faultErrs
 
 	nInvList, nInvGet, nInvWrite int
 	nGet                         map[int]int
@@ -590,9 +646,9 @@ type Server struct {
 }
 
 func NewServer(st *Store, clock *Clock, env Env) *Server {
-	s := &Server{st: st, univ: st.univ, clock: clock, faults: map[string]bool{}, nGet: map[int]int{}, cancelAt: env.Cancel}
+	s := &Server{st: st, univ: st.univ, clock: clock, faults: map[string]int{}, nGet: map[int]int{}, cancelAt: env.Cancel}
 	for _, f := range env.Faults {
-		s.faults[f.Key()] = true
+		s.faults[f.Key()] = 1 + f.Err
 	}
 	return s
 }
@@ -610,7 +666,7 @@ func (s *Server) begin(what string) {
 }
 
 // hit records the address and tells whether the request must be rejected.
-func (s *Server) hit(a FAddr) bool {
+func (s *Server) hit(a FAddr) error {
 	k := a.Key()
 	seen := false
 	for _, b := range s.addrs {
@@ -622,10 +678,31 @@ func (s *Server) hit(a FAddr) bool {
 	if !seen {
 		s.addrs = append(s.addrs, a)
 	}
-	return s.faults[k]
+	if e := s.faults[k]; e > 0 {
+		return injectedError(e-1, a)
+	}
+	return nil
 }
 
-var errInjected = apierrors.NewInternalError(fmt.Errorf("injected fault"))
+// injectedError builds the rejection of the given kind. None of them makes a
+// client retry: client-go's REST client only retries 429 / 5xx answers that
+// carry a Retry-After header (none is set), the dynamic decorator is called
+// directly, and kubectl's patcher retries only on 409 Conflict, which is
+// therefore never drawn for the apply path (FApply).
+func injectedError(kind int, a FAddr) error {
+	gr := schema.GroupResource{Resource: "injected"}
+	switch faultErrs[kind] {
+	case 403:
+		return apierrors.NewForbidden(gr, a.Key(), fmt.Errorf("injected fault"))
+	case 409:
+		return apierrors.NewConflict(gr, a.Key(), fmt.Errorf("injected fault"))
+	case 400:
+		return apierrors.NewBadRequest("injected fault")
+	case 503:
+		return apierrors.NewServiceUnavailable("injected fault")
+	}
+	return apierrors.NewInternalError(fmt.Errorf("injected fault"))
+}
 
 func (s *Server) id(gvr schema.GroupVersionResource, ns, name string) int {
 	k := kindByResource(gvr.Resource)
@@ -702,14 +779,14 @@ func (s *Server) opGet(gvr schema.GroupVersionResource, ns, name string) (*unstr
 	if gvr == invGVR && ns == invNS && name == invName {
 		a := FAddr{Kind: "FInvGet", N: s.nInvGet}
 		s.nInvGet++
-		if s.hit(a) {
-			return nil, errInjected
+		if err := s.hit(a); err != nil {
+			return nil, err
 		}
 	} else if id := s.id(gvr, ns, name); id >= 0 {
 		a := FAddr{Kind: "FGet", I: id, N: s.nGet[id]}
 		s.nGet[id]++
-		if s.hit(a) {
-			return nil, errInjected
+		if err := s.hit(a); err != nil {
+			return nil, err
 		}
 	} else {
 		s.noteUnexpected("GET of %s %s/%s outside the universe", gvr.Resource, ns, name)
@@ -732,8 +809,8 @@ func (s *Server) opList(gvr schema.GroupVersionResource, ns, selector string) (*
 	if gvr == invGVR && strings.Contains(selector, common.InventoryLabel) {
 		a := FAddr{Kind: "FInvList", N: s.nInvList}
 		s.nInvList++
-		if s.hit(a) {
-			return nil, errInjected
+		if err := s.hit(a); err != nil {
+			return nil, err
 		}
 	} else {
 		s.noteUnexpected("LIST of %s in %q with selector %q", gvr.Resource, ns, selector)
@@ -786,9 +863,9 @@ func (s *Server) opCreate(gvr schema.GroupVersionResource, ns string, obj *unstr
 		s.noteUnexpected("dynamic CREATE of %s %s/%s", gvr.Resource, ns, obj.GetName())
 		return nil, apierrors.NewBadRequest("unexpected create")
 	}
-	if s.hit(addr) {
+	if err := s.hit(addr); err != nil {
 		s.logReq(coq, text, false)
-		return nil, errInjected
+		return nil, err
 	}
 	if s.st.get(gvr, ns, obj.GetName()) != nil {
 		s.logReq(coq, text, false)
@@ -838,9 +915,9 @@ func (s *Server) opUpdate(gvr schema.GroupVersionResource, ns string, obj *unstr
 		addr = FAddr{Kind: "FUpdate", I: id}
 		coq, text = emit.App("RUpdate", emit.Nat(id)), fmt.Sprintf("RUpdate %d", id)
 	}
-	if s.hit(addr) {
+	if err := s.hit(addr); err != nil {
 		s.logReq(coq, text, false)
-		return nil, errInjected
+		return nil, err
 	}
 	live := s.st.get(gvr, ns, obj.GetName())
 	if live == nil {
@@ -879,9 +956,9 @@ func (s *Server) opPatch(gvr schema.GroupVersionResource, ns, name string, pt ty
 	ssa := pt == types.ApplyPatchType
 	coq := emit.App("RPatch", emit.Nat(id), emit.Bool(ssa), emit.Bool(dry))
 	text := fmt.Sprintf("RPatch %d ssa=%v dry=%v", id, ssa, dry)
-	if s.hit(FAddr{Kind: "FApply", I: id}) {
+	if err := s.hit(FAddr{Kind: "FApply", I: id}); err != nil {
 		s.logReq(coq, text, false)
-		return nil, errInjected
+		return nil, err
 	}
 	live := s.st.get(gvr, ns, name)
 	var res *unstructured.Unstructured
@@ -996,9 +1073,9 @@ func (s *Server) opDelete(gvr schema.GroupVersionResource, ns, name string, opts
 		coq = emit.App("RDelete", emit.Nat(id), emit.N(pre), p.Coq())
 		text = fmt.Sprintf("RDelete %d pre=u%d %s", id, pre, p.Coq())
 	}
-	if s.hit(addr) {
+	if err := s.hit(addr); err != nil {
 		s.logReq(coq, text, false)
-		return errInjected
+		return err
 	}
 	live := s.st.get(gvr, ns, name)
 	if live == nil {
